@@ -862,6 +862,35 @@ impl<T: Wire> Wire for std::cell::Cell<T> { open spec fn bytes(&self) -> Seq<u8>
 //@ member decode
 //@ end
 
+// ---------------------------------------------------------------- RefCell (std model, trusted): holds one value; `borrow()` hands out a guard that dereferences to it
+#[verifier::external_type_specification]
+#[verifier::external_body]
+#[verifier::reject_recursive_types(T)]
+pub struct ExRefCell<T: ?Sized>(std::cell::RefCell<T>);
+#[verifier::external_type_specification]
+#[verifier::external_body]
+#[verifier::reject_recursive_types(T)]
+pub struct ExRef<'b, T: ?Sized>(std::cell::Ref<'b, T>);
+pub uninterp spec fn refcell_val<T: ?Sized>(c: &std::cell::RefCell<T>) -> &T;
+pub uninterp spec fn ref_val<'a, 'b, T: ?Sized>(r: &'a std::cell::Ref<'b, T>) -> &'a T;
+/// (a RefCell that is mutably borrowed makes `borrow()` panic: no bytes are produced, outside the property)
+pub assume_specification<'b, T: ?Sized>[ std::cell::RefCell::<T>::borrow ](c: &'b std::cell::RefCell<T>) -> (r: std::cell::Ref<'b, T>)
+    ensures ref_val(&r) == refcell_val(c);
+pub assume_specification<'b, 'a, T: ?Sized>[ <std::cell::Ref<'b, T> as std::ops::Deref>::deref ](r: &'a std::cell::Ref<'b, T>) -> (out: &'a T)
+    ensures out == ref_val(r);
+pub assume_specification<T>[ std::cell::RefCell::<T>::new ](v: T) -> (r: std::cell::RefCell<T>)
+    ensures *refcell_val(&r) == v;
+impl<T: Wire + ?Sized> Wire for std::cell::RefCell<T> { open spec fn bytes(&self) -> Seq<u8> { refcell_val(self).bytes() } }
+impl<'b, T: Wire + ?Sized> Wire for std::cell::Ref<'b, T> { open spec fn bytes(&self) -> Seq<u8> { ref_val(self).bytes() } }
+//@ impl crates/serialize/src/encode.rs :: impl<T: Encode + ?Sized> Encode for std::cell::RefCell<T>
+//@ member encode
+//@ end
+//@ impl crates/serialize/src/decode.rs :: impl<T: Decode> Decode for std::cell::RefCell<T>
+//@ extra
+    proof fn prefix_free(a: &Self, b: &Self, ta: Seq<u8>, tb: Seq<u8>) { T::prefix_free(refcell_val(a), refcell_val(b), ta, tb); }
+//@ member decode
+//@ end
+
 // ---------------------------------------------------------------- Duration (std model, trusted): (secs, nanos < 10^9)
 pub uninterp spec fn dur_secs(d: &std::time::Duration) -> u64;
 pub uninterp spec fn dur_nanos(d: &std::time::Duration) -> u32;
@@ -1639,6 +1668,47 @@ pub proof fn lemma_hashset_roundtrip<T: Decode>(m: Set<T>, xs: Seq<T>, w: Set<T>
     let g = choose|g: Seq<T>| #[trigger] g.to_set() == w && seq_bytes(g) == seq_bytes(xs);
     lemma_seq_bytes_injective::<T>(g, xs);
     assert forall|x: T| xs.to_set().contains(x) <==> m.contains(x) by { assert(xs.to_set().contains(x) <==> xs.contains(x)); }
+}
+
+
+// ---------------------------------------------------------------- Cow: written as the borrowed form, read as the owned form
+// `Encode for Cow<T>` needs `T: Encode`, `Decode for Cow<T>` needs `T::Owned: Decode` and knows nothing about T's image: the two
+// halves meet only where the image of a borrowed value equals the image of its owned form. So they get their own contract
+// traits (HDR), and the meeting point is stated per ToOwned pair (lemma_cow_pairs: str/String, [T]/Vec<T> have the same image).
+/// std model (trusted): what a Cow dereferences to, whichever variant it is
+pub uninterp spec fn cow_view<'a, 'b, T: ?Sized + ToOwned>(c: &'b Cow<'a, T>) -> &'b T;
+pub assume_specification<'a, 'b, T: ?Sized + ToOwned>[ <Cow<'a, T> as std::ops::Deref>::deref ](c: &'b Cow<'a, T>) -> (r: &'b T)
+    ensures r == cow_view(c);
+pub trait CowEncode {
+    spec fn borrowed_bytes(&self) -> Seq<u8>;
+    fn encode<E: Encoder + ?Sized>(&self, encoder: &mut E, plugin: &Plugin, session: &mut Session) -> (r: io::Result<()>)
+        ensures r is Ok ==> final(encoder).out() =~= old(encoder).out() + self.borrowed_bytes();
+}
+pub trait CowDecode<O: Wire>: Sized {
+    /// the owned value inside (None for a borrowed Cow)
+    spec fn owned(&self) -> Option<O>;
+    fn decode<D: Decoder + ?Sized>(decoder: &mut D, plugin: &Plugin, session: &mut Session) -> (r: io::Result<Self>)
+        ensures forall|v: O, tail: Seq<u8>| #![trigger v.bytes() + tail] old(decoder).rest() == v.bytes() + tail ==>
+            (r matches Ok(c) && c.owned() matches Some(w) && w.bytes() == v.bytes() && final(decoder).rest() == tail);
+}
+//@ impl crates/serialize/src/encode.rs :: impl<T: Encode + ToOwned + ?Sized> Encode for Cow<'_, T>
+//@ header-sub Encode for Cow<'_, T> => CowEncode for Cow<'_, T>
+//@ extra
+    open spec fn borrowed_bytes(&self) -> Seq<u8> { cow_view(self).bytes() }
+//@ member encode
+//@ end
+//@ impl crates/serialize/src/decode.rs :: impl<T: ToOwned + ?Sized> Decode for Cow<'_, T> where T::Owned: Decode,
+//@ header-sub Decode for Cow<'_, T> => CowDecode<T::Owned> for Cow<'_, T>
+//@ extra
+    open spec fn owned(&self) -> Option<T::Owned> { match self { Cow::Owned(o) => Some(*o), Cow::Borrowed(_) => None } }
+//@ member decode
+//@ end
+/// where the two halves meet: a borrowed string / slice has the image of its owned form
+pub proof fn lemma_cow_pairs<T: Wire>(s: &str, o: String, xs: &[T], v: Vec<T>)
+    ensures
+        s@ == o@ ==> <str as Wire>::bytes(s) == <String as Wire>::bytes(&o),
+        xs@ == v@ ==> <[T] as Wire>::bytes(xs) == <Vec<T> as Wire>::bytes(&v),
+{
 }
 
 } // verus!
